@@ -35,7 +35,7 @@ def columns(seed, tier, methods=None):
         counts = facts.interesting_counts(fm)
         if tier == "quick":
             # every class kept: 0, min, default, interior, power of ten, max
-            counts = counts[:8] if len(counts) > 8 else counts
+            counts = (counts[:7] + counts[-3:]) if len(counts) > 10 else counts
         for c in counts:
             for nr in nrs:
                 for pat in (["rnd"] if tier == "quick" else ["rnd", "ff", "zero"]):
@@ -204,6 +204,15 @@ def do_config(args):
     return acc
 
 
+def do_fortify(chunk):
+    """the grid on a -D_FORTIFY_SOURCE=2 build (sizes up to 256, i.e. beyond the library's own 192-byte temporaries)"""
+    acc = do_chunk(chunk, rt.PATHS["vw-fortify"], "fortify")
+    for v in acc.viol:
+        v["key"] = v["key"] + "@fortify"
+        v["detail"] = "[-O2 -D_FORTIFY_SOURCE=2] " + v["detail"]
+    return acc
+
+
 def do_large(args):
     """random larger sizes, each with a real block of exactly that size"""
     seed, n = args
@@ -250,9 +259,12 @@ def do_large(args):
 
 def run(tier):
     run_ = common.Run(PID, tier, "exploration")
-    rt.prepare([FL])
+    rt.prepare([FL, "fortify"])
     cols = columns(run_.seed, tier)
     for acc in pool.pmap(do_chunk, pool.chunks(cols, 6)):
+        run_.merge(acc)
+    fcols = [c for c in cols if c[3] in (16, 64)]
+    for acc in pool.pmap(do_fortify, pool.chunks(fcols if tier == "thorough" else fcols[::3], 6)):
         run_.merge(acc)
     for acc in pool.pmap(do_config, [(c, run_.seed, tier) for c in CONFIGS]):
         run_.merge(acc)
